@@ -10,7 +10,7 @@ from verif.engine import Ob
 LEVEL = "model_checking"
 BOUNDS = {"FlagOp": "and_/or_/xor_/not_/where/cond with every concrete/traced tagging, scalar and vector (length 3) flags, nested 3-flag formulas",
           "tree_choose": "2..4 choices, ALL integer indices (symbolic, unbounded), scalar/vector/pytree choices, mixed bool/int/float dtypes, concrete Python indices -n-1..n+1",
-          "multi_switch": "2..3 branches with heterogeneous output shapes, ALL integer indices"}
+          "multi_switch": "2..3 branches with heterogeneous output shapes, ALL integer indices (symbolic) and every concrete Python int in -n-1..n+1"}
 ASSUMPTIONS = ["result dtypes are static and compared as jaxpr metadata; values as reals/ints"]
 OUTSIDE = ["more than 4 choices / 3 branches"]
 
@@ -107,7 +107,15 @@ def obligations(tier, seed):
         return outs, [jnp.where(k == 0, x + 1.0, 0.0), jnp.where(k == 1, jnp.array([x, x * x]), 0.0)]
 
     obs.append(Ob("C20/multi_switch/2-branches/all-int", ms2, (jnp.int32(0), jnp.float32(0.5))))
-    for ci in (-2, 0, 1, 3):
+    for ci in range(-4, 5):
+        def ms3c(x, y, ci=ci):
+            fs = [lambda p: p * 2.0, lambda p, q: (p + q, jnp.stack([p, q])), lambda q: {"z": q - 1.0}]
+            k = min(max(ci, 0), 2)
+            z = jnp.float32(0.0)
+            return multi_switch(ci, fs, [(x,), (x, y), (y,)]), [x * 2.0 if k == 0 else z, ((x + y) if k == 1 else z, jnp.stack([x, y]) if k == 1 else jnp.zeros(2)), {"z": (y - 1.0) if k == 2 else z}]
+
+        obs.append(Ob(f"C20/multi_switch/3-heterogeneous/concrete{ci}", ms3c, (jnp.float32(0.5), jnp.float32(1.5)), note="concrete Python int index (every value in -n-1..n+1): same clamped branch as the traced index"))
+    for ci in (-3, -2, -1, 0, 1, 2, 3):
         obs.append(Ob(f"C20/multi_switch/2-branches/concrete{ci}", lambda x, ci=ci: (multi_switch(ci, [lambda p: p + 1.0, lambda p: jnp.array([p, p * p])], [(x,), (x,)]),
                                                                                    [x + 1.0 if min(max(ci, 0), 1) == 0 else jnp.float32(0.0), jnp.array([x, x * x]) if min(max(ci, 0), 1) == 1 else jnp.zeros(2)]), (jnp.float32(0.5),)))
     return obs
